@@ -155,14 +155,12 @@ Example C08_kraus_choi_composite_witness :
   exists J, to_choi (QOper V) = Ok J /\ kraus_to_choi [V] = Ok J /\ istp (QSuper J) = Some true.
 Proof. eexists. split; [vm_compute; reflexivity|]. split; vm_compute; reflexivity. Qed.
 
-(* predicate part of C08 for the chi representation.  Full statement:
-     forall J C, to_chi (QSuper J) = Ok C -> istp (QSuper C) = istp (QSuper J).
-   Proved here (partial): Qobj.istp now tests the Choi matrix that _chi_to_choi
-   rebuilds from a chi matrix (numerator B chi B^dag against shape[0] times the
-   identity); that this numerator is shape[0] * J for the Pauli basis of any
-   number of qubits is C08_chi_choi_roundtrips in Props/C08_alg.v (the link
-   between the list matrix `superpauli` and the Pauli strings of that theorem
-   is by correspondence, nq <= 3). *)
+(* predicate part of C08 for the chi representation.  The full statement
+     forall J C, choi_to_chi J = Ok C -> istp (QSuper C) = istp (QSuper J)
+   is C08_istp_chi_agrees in Props/C08_ext.v (every number of qubits).  Kept
+   here: the shape of the fixed code - Qobj.istp tests the Choi matrix that
+   _chi_to_choi rebuilds from a chi matrix (exact numerator B chi B^dag against
+   shape[0] times the identity). *)
 Theorem C08_istp_chi_agrees_partial :
   forall q, s_rep q = Chi ->
     istp (QSuper q) = match chi_to_choi q with
@@ -190,20 +188,3 @@ Proof.
   - eexists. split; [vm_compute; reflexivity|]. split; [reflexivity|]. split; vm_compute; reflexivity.
   - eexists. split; [vm_compute; reflexivity|]. split; vm_compute; reflexivity.
 Qed.
-
-(* the flat list matrix built by _superpauli_basis (textbook basis since the fix:
-   columns vec P_k) is orthogonal and complete with constant 2^nq - finite
-   computation, bound in the statement; for every nq this is
-   C08_pauli_orthogonal_complete in Props/C08_alg.v on the Pauli strings
-   themselves, and the flat matrix is compared with the implementation for nq <= 3 *)
-Theorem C08_superpauli_flat_small :
-  forall nq, 1 <= nq <= 2 ->
-    let N := 4 ^ nq in
-    let B := superpauli nq in
-    let cI := mbuild N N (fun r c => if r =? c then gofnat (2 ^ nq) else g0) in
-    mmul N N N (madj N N B) B = cI /\ mmul N N N B (madj N N B) = cI.
-Proof.
-  intros nq [H1 H2]. assert (E : nq = 1 \/ nq = 2) by lia.
-  destruct E as [E|E]; subst nq; vm_compute; split; reflexivity.
-Qed.
-Print Assumptions C08_superpauli_flat_small.
